@@ -72,7 +72,7 @@ pub fn gen_user_red(r: &mut Rng) -> Option<[f32; 3]> {
         if r.chance(1, 8) {
             // a user value that happens to equal the built-in default (or a regulatory value) is still the user's value:
             // it must win over whatever the file says
-            return Some(*r.pick(&[[0.0, 1.3, 0.3], [1.0, 0.0, 0.0], [0.0, 1.0, 0.0]]));
+            return Some(*r.pick(&[[0.0, 1.3, 0.3], [1.0, 0.0, 0.0], [0.0, 1.0, 0.0], [0.0, 0.0, 0.0], [0.0, 0.0, 0.0]]));
         }
         if r.chance(1, 8) {
             // more decimals than the three the text form of a factor keeps, next to a carry (0.9996 -> 1.000)
@@ -157,6 +157,14 @@ pub fn gen_user_file(r: &mut Rng, o: &FacOpts) -> String {
         }
         if r.chance(1, 3) {
             lines.push(format!("ELECTRICIDAD, COGEN, SUMINISTRO, A, {}", triple(r)));
+        }
+    }
+    if r.chance(1, 6) {
+        // well-formed lines nothing ever looks up: grid-source factors with an export destination, a step B supply line
+        let cr = *r.pick(&CARRIERS);
+        lines.push(format!("{}, RED, {}, {}, {}", cr, *r.pick(&["A_RED", "A_NEPB"]), *r.pick(&["A", "B"]), triple(r)));
+        if r.chance(1, 2) {
+            lines.push(format!("ELECTRICIDAD, RED, A_RED, B, {}", triple(r)));
         }
     }
     if o.duplicates && r.chance(1, 4) {
